@@ -35,4 +35,15 @@ CHECKS = {
             {"pkg": "c04", "run": "TestCuts", "checks": {Q: 1600, T: 24000}, "shards": {Q: 8, T: 16}},
         ],
     },
+    "C02": {
+        "level": "exploration",
+        "assumptions": [
+            "error details use message types linked into the binary (Connect's JSON error needs the registry at this pin)",
+            "messages are valid UTF-8; codes 1..16; HTTP/1.1 trailers are kept under net/http's own size limit",
+        ],
+        "jobs": [
+            {"pkg": "c02", "run": "TestMem", "checks": {Q: 6000, T: 200000}, "shards": {Q: 4, T: 16}},
+            {"pkg": "c02", "run": "TestNet", "checks": {Q: 3000, T: 64000}, "shards": {Q: 4, T: 16}},
+        ],
+    },
 }
